@@ -23,6 +23,7 @@ EXPLANATION = (
     "per-site structural clauses, not graph-wide invariants after arbitrary operation sequences. "
     'Also: Step.mark_completed reaches outputs through products(File) in both branches (a step that completes while detached still gets its outputs BUILT).'
     ' R-C09-8 every statement that gives a stored node a new creator is dominated by the creator-chain check (or cannot close a cycle); R-C09-9 the primitive setters perform the write they are named after; R-C09-4 the batched cycle check covers exactly the inserted edges.'
+    " R-C09-13 every executor site that records hashes with a literal SUCCEEDED/FAILED cause selects them, where it records them, by the node's current state, and the states let through all have a row for the cause (two sites are known findings F63/F64; two of the same shape without a failing history are listed, not judged); R-C09-14 the declared-again mechanism (R-C12-10) as a necessary condition of row integrity."
 )
 ASSUMPTIONS = [
     "SQLite enforces CHECK constraints and RAISE(ABORT) triggers as documented",
@@ -726,7 +727,7 @@ def rule_run_reports_filtered(ctx):
 
 
 RULES = [
-    Rule("R-C09-14", "a step declared again while running or being checked keeps its row, and no verdict is applied to the re-created row", C12.rule_redeclared_running_step, min_instances=22),
+    Rule("R-C09-14", "a step declared again while running or being checked keeps its row, and no verdict is applied to the re-created row", C12.rule_redeclared_running_step, min_instances=24),
     Rule("R-C09-13", "a step run reports hashes only for nodes still in the role they were collected in", rule_run_reports_filtered, min_instances=7),
     Rule("R-C09-12", "declarations and amendments are written into the graph", rule_declaration_wired, min_instances=6),
     Rule("R-C09-11", "update_file_hashes applies the transition table", rule_transitions_applied, min_instances=8),
